@@ -183,6 +183,11 @@ def run(rep):
                 n3 += 1
                 rep.violation('mixed checked/unchecked tree: to_string %s, the gating model says %s' % (o['to_string'], 'passes' if e == '1' else 'refuses'),
                               {'tree': t, 'observed': o['to_string'], 'model': e})
+            got_ic = '1' if o.get('to_string_ic', o['to_string']) == 'ok' else '0'
+            if got_ic != e and got == e:
+                n3 += 1
+                rep.violation('mixed checked/unchecked tree: to_string(intelligent_choice=True) %s, the gating model says %s (plain to_string agrees with the model)' % (
+                    o.get('to_string_ic'), 'passes' if e == '1' else 'refuses'), {'tree': t, 'observed': o.get('to_string_ic'), 'model': e})
         nontriv = len({(c['elem'], json.dumps(c['ops'])) for c in unc if len(c['ops']) >= 3}) + len(twins) + sum(1 for t in trees if t[3])
         rep.coverage.update({'evaluations': len(unc) + len(twins) + len(trees), 'distinct_nontrivial': nontriv,
                              'traces_validated_against_impl': len(unc) + len(trees), 'unchecked_histories': len(unc), 'classes': len(g['sym']),
